@@ -218,3 +218,53 @@ CLAIMS["C09"] = {
 }
 
 NOT_APPLICABLE = {}
+
+
+# Clauses added in the second round (rules written after independent seeded changes showed what was not yet decided); see DESIGN.md section 11.
+EXTRA = {
+    "C01": "Also (R8): the number of bytes requested from the file is never reduced below the caller's chunk size (a zero-byte read is how end of file is recognised); the end-of-file "
+           "terminator built from a sample of the pending bytes does not queue the sampled bytes a second time; the multi-line FASTA carriage-return sniff is existential.",
+    "C02": "Also (R7): key=value sub-fields (VCF INFO) match a flag only by the exact key (length and all characters) and a valued key by `key=`; values are what follows. (R8) line ends of "
+           "line-group formats lose a trailing carriage return per line.",
+    "C03": "Also (R6): every non-empty piece of a stream is written (no early exit from the loop over pieces); untouched columns reach the writer through the text accessor, and a column "
+           "that the typed accessor converts has a text override for the same test; the header decision precedes the early return for empty data; stale-shape idiom.",
+    "C04": "Also (R7-R10, shared clauses): BAM selections are gathered record by record; record and field extents of line-group formats; column accessors do not modify the start/length "
+           "tables; untouched columns are supplied as file text.",
+    "C05": "Also (R6): every __getitem__ link of the lazy selection chain hands the index on unchanged (no dtype conversion, no i:i+1 window for scalars), and the index tables shared "
+           "between a table and its selections are never written in place (ownership analysis, augmented assignments on receiver arrays included).",
+    "C06": "Also (R6/R7): equality of alphabet encodings compares the ordered alphabets (not the table of accepted bytes); a list of encoded arrays is accepted only if every element has "
+           "the labelled encoding and is joined in order; item assignment re-targets the value first.",
+    "C07": "Also: split compares through the encoded `==` (never raw codes with ordinals); ragged text is decoded before it is padded; every return of the np.concatenate / np.where branches "
+           "builds a new array; (R6) no memoised function hands a mutable array to callers that return, store or write it.",
+    "C08": "Also (R6): the all-vs-all Jaccard matrix cell indices are derived symbolically from the two enumerate() calls; interval functions do not write into their arguments "
+           "(provenance analysis restricted to the interval modules).",
+    "C09": "Also (R4): dict caches (module- or class-level) are keyed by everything the cached value depends on, including instance state for class-level containers; both branches of "
+           "from_bedgraph build events and values from the gap-filled columns.",
+    "C10": "Also (R8): bins per chromosome are a ceiling division; genome size sums the very table the global offsets are built from; every table derived from stranded intervals / "
+           "locations hands on the strand flag.",
+    "C11": "Also (R7): operand-unwrapping comprehensions unwrap the operand itself; compute() writes the k-th result back to the k-th node position; the streamed get_windows computes the "
+           "same flanks and columns as its in-memory twin (sibling cross-check).",
+    "C12": "Also (R6/R7): group boundaries are positions where the key differs (`!=`), not where it increases; the contig filter is forwarded at every link from Genome constructors to "
+           "GenomeContext.from_dict and applied as given; similarity measures consume the synchronised streams in lock-step.",
+    "C13": "Also (R7): match_string compares every position (no fixed-width positional hash of an unbounded pattern); a too-short-input guard in rolling_window must be strict.",
+    "C14": "Also (R4): dict caches of complement tables are keyed by the ordered alphabet; no value computed on entries taken in a sorted order is indexed by the same permutation again "
+           "(inverse permutation required).",
+    "C15": "Also (R5/R6, shared): a line with another column count makes the start/end table ragged (reshape(-1, n) raises); the all-missing shortcut of optional numeric columns "
+           "quantifies over all values.",
+    "C16": "Also (R8/R9): the raw BAM chunk is not trimmed by content before records are located; the header is written before the early return for empty data.",
+    "C17": "Also (R4): every fetch returns memory of its own (return provenance is fresh, never a view of a buffer kept on the reader); no single-slot memo filled on first use depends on "
+           "an argument of the call.",
+    "C18": "Also: float parsing weighs digits with floating-point powers; absolute stores into the power array precede the increments; (R5) the all-missing shortcut quantifies over all "
+           "values; (R6) every call site of the in-place decimal parser hands it a copy.",
+    "C19": "Also (R7): the same-type guard of add_fields quantifies over all values; list-valued columns are converted with RaggedArray(...) for every non-ragged input (no extra "
+           "condition that would exclude the empty list of a 0-row table).",
+    "C20": "Also (R6-R8): memoised functions return immutable values or their results never escape (returned further, stored, written in place, or called through a stored bound method); "
+           "augmented assignment on non-scalar receiver attributes counts as an in-place write; compaction state and copy() clauses shared with C04/C07.",
+}
+for _k, _v in EXTRA.items():
+    CLAIMS[_k]["text"] += " " + _v
+_NF = (" All rules read the source in a comparison normal form (bnpsa/normalize.py): early exits as if/else with un-negated tests, locals and comprehension variables renamed back to "
+       "the reference vocabulary, freshly introduced temporaries inlined and inlined reference temporaries re-introduced - every step a semantics-preserving rewrite, so renaming, "
+       "temporaries and guard orientation do not change a verdict.")
+for _k in CLAIMS:
+    CLAIMS[_k]["note"] += _NF
